@@ -1175,7 +1175,7 @@ func bRepeat(intp *Interpreter) error {
 	intp.Stack = intp.Stack[:len(intp.Stack)-2]
 	for i := Integer(0); i < count; i++ {
 		err := intp.executeOne(proc, true)
-		if err == errStop {
+		if err == errExit {
 			break
 		} else if err != nil {
 			return err
